@@ -665,8 +665,13 @@ def r05_13(chk, P):
              'many vectors: a reader that walks `ch` vectors where the writer wrote `used` runs out of step in every packet in '
              'which some, but not all, channels of the submap are silent')
     n = 0
-    for F in P.functions():
-        if not F.file.endswith('lib/res0.c') or F.entry is None:
+    done13 = set()
+    helpers = {}
+    fl = [F for F in P.functions() if F.file.endswith('lib/res0.c') and F.entry is not None]
+    # functions that compact in place come first, so that a compacting helper is known when its callers are examined
+    fl.sort(key=lambda F: 0 if F.static else 1)
+    for F in fl + fl:
+        if F.name in done13:
             continue
         comp = []
         for e in F.nodes('assign'):
@@ -682,18 +687,57 @@ def r05_13(chk, P):
                 if u['k'] == 'ref' and u['decl'].get('kind') == 'var' and r['k'] == 'sub' and \
                         F.ex[F.strip_casts(r['c'][0])].get('decl', {}).get('id') == base['decl']['id']:
                     comp.append((e, base['decl']['id'], u['decl']['id']))
-        if not comp:
-            continue
-        e0, arr, u = comp[0]
-        # the bound of the compaction loop
         bound = None
-        for c, pol in common.controlling_conditions(F, e0):
-            cn = F.ex[F.strip_casts(c)]
-            if cn['k'] == 'bin' and cn['op'] == '<' and pol:
-                b = F.ex[F.strip_casts(cn['c'][1])]
-                if b['k'] == 'ref' and b['decl'].get('kind') == 'param':
-                    bound = b['decl']['id']
+        if comp:
+            e0, arr, u = comp[0]
+            # the bound of the compaction loop
+            for c, pol in common.controlling_conditions(F, e0):
+                cn = F.ex[F.strip_casts(c)]
+                if cn['k'] == 'bin' and cn['op'] == '<' and pol:
+                    b = F.ex[F.strip_casts(cn['c'][1])]
+                    if b['k'] == 'ref' and b['decl'].get('kind') == 'param':
+                        bound = b['decl']['id']
+            # a helper that only compacts and answers the count: remembered for its callers
+            rets = [F.ex[F.strip_casts(F.ex[r]['c'][0])] for r in F.nodes('ret') if F.ex[r].get('c')]
+            if F.static and rets and all(r_['k'] == 'ref' and r_['decl'].get('id') == u for r_ in rets):
+                pi = {p_['id']: i_ for i_, p_ in enumerate(F.params)}
+                if arr in pi and bound in pi:
+                    helpers[F.name] = (pi[arr], pi[bound])
+                    continue
+        else:
+            # `used = gather(in, .., ch)` through such a helper
+            found = None
+            for e in sorted(F.pos):
+                nd = F.ex[e]
+                tgt = src = None
+                if nd['k'] == 'decl':
+                    for v in nd['vars']:
+                        if 'id' in v and v.get('init'):
+                            tgt, src = v['id'], F.strip_casts(v['init'])
+                            cn_ = F.ex[src]
+                            if cn_['k'] == 'call' and cn_['callee'].get('d') in helpers:
+                                found = (tgt, src)
+                elif nd['k'] == 'assign' and nd['op'] == '=':
+                    l = F.ex[F.strip_casts(nd['c'][0])]
+                    src = F.strip_casts(nd['c'][1])
+                    if l['k'] == 'ref' and l['decl'].get('kind') == 'var' and F.ex[src]['k'] == 'call' and F.ex[src]['callee'].get('d') in helpers:
+                        found = (l['decl']['id'], src)
+            if found is None:
+                continue
+            u, hc = found
+            ai, bi = helpers[F.ex[hc]['callee']['d']]
+            args = F.ex[hc].get('c', [])
+            an = F.ex[F.strip_casts(args[ai])] if ai < len(args) else None
+            bn = F.ex[F.strip_casts(args[bi])] if bi < len(args) else None
+            if an is None or an['k'] != 'ref':
+                continue
+            arr = an['decl']['id']
+            bound = bn['decl']['id'] if bn is not None and bn['k'] == 'ref' else None
+            comp = [(hc, arr, u)]
+        done13.add(F.name)
         for c in F.calls():
+            if c == comp[0][0]:
+                continue
             args = F.ex[c].get('c', [])
             ids = [F.ex[F.strip_casts(a)].get('decl', {}).get('id') if F.ex[F.strip_casts(a)]['k'] == 'ref' else None for a in args]
             if arr not in ids:
